@@ -74,6 +74,8 @@ type world struct {
 	nmsg      int
 	commitBlk *blk
 	voted     map[string]bool // honest puppets: one vote per (height, round, type, puppet)
+	far       map[int64]bool  // rounds far ahead for which this peer sent votes that fail validation (at height farH)
+	farH      int64
 }
 
 func (w *world) rs() *pbft.RoundState { return w.vnode.CS.VerifRoundState() }
@@ -466,6 +468,69 @@ func (w *world) genHostile() hostile {
 	}
 }
 
+// farVote is a vote for a round well ahead of the receiver's that fails validation
+// (forged signature, foreign address, another validator's index). The receiver may
+// set up at most two catch-up rounds per peer and height (HeightVoteSet.AddVote);
+// a peer whose votes are all rejected must not be able to make it track more.
+func (w *world) farVote() (hostile, int64) {
+	rs := w.rs()
+	if w.far == nil || w.farH != rs.Height {
+		w.far, w.farH = map[int64]bool{}, rs.Height
+	}
+	r := rs.Round + 2 + int64(len(w.far))*3 + int64(w.rng.Intn(3))
+	bIdx := w.net.ValIndex(rs.Validators, w.B)
+	bAddr := w.net.Nodes[w.B].Addr
+	id := types.BlockID{Hash: []byte("hostile-block-hash-0"), PartsHeader: types.PartSetHeader{Total: 1, Hash: []byte("hostile-parts-hash-0")}}
+	typ := []byte{types.VoteTypePrevote, types.VoteTypePrecommit}[w.rng.Intn(2)]
+	var v *types.Vote
+	kind := ""
+	switch w.rng.Intn(3) {
+	case 0:
+		v, kind = w.byzVote(rs.Height, r, typ, id, bIdx, bAddr, true), "forged-signature"
+	case 1:
+		v, kind = w.byzVote(rs.Height, r, typ, id, bIdx, w.net.Nodes[w.V].Addr, false), "foreign-address"
+	default:
+		v, kind = w.byzVote(rs.Height, r, typ, id, (bIdx+1)%w.n, bAddr, false), "other-index"
+	}
+	return hostile{pbft.VoteChannel, enc(&pbft.VoteMessage{Vote: v}), fmt.Sprintf("farvote %s round %d", kind, r), true}, r
+}
+
+// farBurst offers k such votes and judges the bound after each.
+func (w *world) farBurst(k int) {
+	for i := 0; i < k && !w.failed; i++ {
+		hm, r := w.farVote()
+		h0 := w.rs().Height
+		w.offer(hm)
+		if w.failed || w.rs().Height != h0 {
+			return
+		}
+		w.far[r] = true
+		w.run.Count("far_round_rejected_votes", 1)
+		if n, rounds := w.farTracked(); n > 2 {
+			w.viol("catchup-rounds-unbounded:rejected-votes-of-one-peer", fmt.Sprintf("after %d votes from one peer that all failed validation (%s last) the receiver tracks vote sets for %d rounds ahead of its own (%v); the bound is two catch-up rounds per peer", len(w.far), hm.desc, n, rounds),
+				map[string]interface{}{"rounds": rounds, "offered": len(w.far), "last_input_hex": fmt.Sprintf("%X", hm.bytes)})
+			return
+		} else if n > 0 {
+			w.run.Count("far_rounds_tracked_within_bound", 1)
+		}
+	}
+}
+
+// farTracked counts the far rounds of rejected votes the receiver has set up vote sets for.
+func (w *world) farTracked() (int, []int64) {
+	rs := w.rs()
+	if rs.Height != w.farH || rs.Votes == nil {
+		return 0, nil
+	}
+	var rounds []int64
+	for r := range w.far {
+		if r > rs.Round+1 && rs.Votes.Prevotes(r) != nil {
+			rounds = append(rounds, r)
+		}
+	}
+	return len(rounds), rounds
+}
+
 // offer sends one hostile message through the real path and judges (a) and (b).
 func (w *world) offer(hm hostile) {
 	w.nmsg++
@@ -593,11 +658,17 @@ func runCase(run *lib.Run, c int64, base string, inlog *os.File) {
 		rs := w.rs()
 		w.run.Distinct("receiver_states_reached", fmt.Sprintf("%s@step%d", st, rs.Step))
 		h0 := rs.Height
+		if (int(c)+hgt)%2 == 0 {
+			w.farBurst(5)
+		}
 		for k := 0; k < burst && !w.failed; k++ {
 			w.offer(w.genHostile())
 			if w.rs().Height != h0 {
 				break
 			}
+		}
+		if !w.failed && (int(c)+hgt)%2 == 1 && w.rs().Height == h0 {
+			w.farBurst(5)
 		}
 		if w.failed {
 			break
